@@ -185,9 +185,11 @@ def expected_acc(d):
 
     def geom(rows, col, r, c):
         return (["z", "z"] if r * c == 0 else pos(rows, col, 0)) + [str(r), str(c)]
-    out = []
+    out = ["H"] + geom(d.mr, 0, d.mr, d.mc) + geom(d.cr, 0, d.cr, d.cc) + geom(d.wr, 0, d.wr, 1)
+    if d.kind == PS:
+        out += geom(d.sr, 0, d.sr, d.sc)
     dc = d.dcov
-    for i in range(min(d.k, 16)):
+    for i in range(min(d.k, 32)):
         out += geom(d.mr, i, d.mr, 1) * 2 if i < d.mc else ["oob"]
         out += pos(d.mr, i, d.mr - 1) * 2 if (i < d.mc and d.mr > 0) else ["-"]
         inr = dc * i + dc <= d.cc
@@ -284,6 +286,20 @@ def p_op(op, ret, d, prev):
         if src is not None and not same_obj(d, src):
             bad.append(("copy", "copy differs from its source: %s vs %s" % (d.brief(), src.brief())))
         return bad
+    if t == "MV":
+        src = prev.get(op[2])
+        if src is not None and not same_obj(d, src):
+            bad.append(("move", "moved-to object differs from the moved-from original: %s vs %s" % (d.brief(), src.brief())))
+        return bad
+    if t == "BA":
+        old, src = prev.get(op[1]), prev.get(op[2])
+        if old is None or src is None:
+            return bad
+        if not (d.kind == old.kind and d.fields()[1:] == src.fields()[1:] and d.dims()[:5] == src.dims()[:5]
+                and (d.mean, d.cov, d.weight) == (src.mean, src.cov, src.weight)
+                and d.dims()[5:] == old.dims()[5:] and d.state == old.state):
+            bad.append(("base-assign", "assignment through base references: mixture part is not the source's or class / particle state changed: %s" % d.brief()))
+        return bad
     if t == "SL":
         src = prev.get(op[2])
         if src is not None and not (d.kind == GM and same_obj(d, src, ignore_kind=True)):
@@ -301,6 +317,13 @@ def p_op(op, ret, d, prev):
                 for m in cols_equal(d, old, "resize changing only the component count %d -> %d" % (old.k, k), i, i):
                     bad.append(("resize-preserve", m))
         return bad
+    if t == "AA":
+        if old is None or not wf_ok(old):
+            return bad
+        i0 = op[2]
+        Q = [[old.C(r, old.dcov * i0 + c) for c in range(old.dcov)] for r in range(old.dcov)]    # tokens
+        op = ("AU", op[1], old.dcov, old.dcov, Q)
+        t = "AU"
     if t == "AU":
         qr, qc, Q = op[2], op[3], op[4]
         if old is None or not wf_ok(old):
@@ -324,7 +347,7 @@ def p_op(op, ret, d, prev):
                 bad.append(("augment-mean", "component %d: mean is not [m; 0]" % i))
             b0 = d.dcov * i
             okP = all(d.C(r, b0 + c) == old.C(r, D0 * i + c) for r in range(D0) for c in range(D0))
-            okQ = all(d.C(D0 + r, b0 + D0 + c) == val_tok(Q[r][c]) for r in range(a) for c in range(a))
+            okQ = all(d.C(D0 + r, b0 + D0 + c) == (Q[r][c] if isinstance(Q[r][c], str) else val_tok(Q[r][c])) for r in range(a) for c in range(a))
             okZ = all(tok_float(d.C(r, b0 + D0 + c)) == 0.0 and tok_float(d.C(D0 + c, b0 + r)) == 0.0 for r in range(D0) for c in range(a))
             if not (okP and okQ and okZ):
                 bad.append(("augment-cov", "component %d: covariance is not blockdiag(P, Q) (P block %s, Q block %s, zero blocks %s)" % (
@@ -374,6 +397,20 @@ def p_op(op, ret, d, prev):
     return bad
 
 
+# --------------------------------------------------------------------------- discipline of base-reference operations
+
+def disciplined_ba(dst, src):
+    """`static_cast<GaussianMixture&>(dst) = src` fits dst's class-specific part (BFL.Shape.Disciplined)"""
+    if dst.kind == PS and (dst.sr, dst.sc) != (src.dim - src.n, src.k):
+        return False
+    if dst.kind == GA and src.k != 1:
+        return False
+    return True
+
+
+KIND_CLAUSES = ("wf:state-storage", "wf:gaussian-components")
+
+
 # --------------------------------------------------------------------------- branches of the anchored code hit by a case
 
 def branches(op, old, prev):
@@ -382,7 +419,16 @@ def branches(op, old, prev):
     if t in ("D", "C2", "C4"):
         return ["ctor:%s:%s" % (t, KIND[op[2]]) + (":quaternion" if t == "C4" and op[6] else "")]
     if t in ("CP", "SL"):
-        return ["copy:%s" % ("construct" if t == "CP" and op[3] == 0 else "assign" if t == "CP" else "slice")]
+        return ["copy:%s" % ("construct" if t == "CP" and op[3] == 0 else ("self-assign" if op[1] == op[2] else "assign") if t == "CP" else "slice")]
+    if t == "MV":
+        return ["move:%s" % ("construct" if op[3] == 0 else "assign")]
+    if t == "BA":
+        a_, b_ = prev.get(op[1]), prev.get(op[2])
+        if a_ is None or b_ is None:
+            return []
+        return ["base-assign:%s<-%s%s" % (KIND[a_.kind], KIND[b_.kind], "" if disciplined_ba(a_, b_) else ":undisciplined")]
+    if t == "AA":
+        return ["augment:own-block"] if old is not None else []
     if old is None:
         return []
     per = 4 if old.q else 1
@@ -404,6 +450,8 @@ def branches(op, old, prev):
                 out.append("ps-resize:conservative" + (":with-noise" if old.n else ""))
             else:
                 out.append("ps-resize:full" + (":with-noise" if old.n else ""))
+        if old.kind == GA and t in ("RS", "R2"):
+            out.append("gaussian-resized-through-base:%s" % ("one-component" if k == 1 else "undisciplined"))
         if t in ("GR", "G1"):
             out.append("gaussian-resize" + (":default-argument" if t == "G1" else ""))
         return out
@@ -416,10 +464,8 @@ def branches(op, old, prev):
         a_, b_ = (prev.get(op[1]), prev.get(op[2])) if t == "PE" else (prev.get(op[2]), prev.get(op[3]))
         if a_ is None or b_ is None:
             return []
-        if t == "PE" and op[1] == op[2]:
-            return ["concat:+=:self(assert)"]
         okc = (a_.sr == b_.sr and a_.mr == b_.mr and a_.cr == b_.cr and b_.cc == a_.dcov * b_.k)
-        return ["concat:%s:%s" % ("+=" if t == "PE" else "+", "accepted" + (":layouts-differ" if (a_.l, a_.c, a_.n) != (b_.l, b_.c, b_.n) else "") if okc else "rejected(assert)")]
+        return ["concat:%s%s:%s" % ("+=" if t == "PE" else "+", ":self" if a_ is b_ else "", "accepted" + (":layouts-differ" if (a_.l, a_.c, a_.n) != (b_.l, b_.c, b_.n) else "") if okc else "rejected(assert)")]
     if t in ("WM", "WC", "WW", "WS"):
         return ["write:%s:mode%d" % (t, op[2])]
     return ["fill"]
@@ -437,6 +483,9 @@ def cmp_entries(model, impl):
 def evaluate(ops, line, h, d):
     """-> dict(viol=[(key, what)], corr=[(key, what)], content=int, note=str|None, branches=[...])"""
     r = {"viol": [], "corr": [], "content": 0, "note": None, "branches": [], "specified": 0, "unspecified": 0}
+    if h == "not-run":
+        r["note"] = "not-run-after-timeouts"
+        return r
     if h.startswith("crash:"):
         if d == "crash:assert":
             r["note"] = "assert-agreed" if h == "crash:assert" else "model-assert-impl-" + h
@@ -445,20 +494,45 @@ def evaluate(ops, line, h, d):
             r["viol"].append(("crash-on-legal-sequence", "the implementation aborts (%s) on a legal operation sequence" % h))
         return r
     if not h.startswith("ok"):
-        r["corr"].append(("harness-output", "harness answered %s" % h[:60]))
+        if d.startswith("ok"):
+            r["viol"].append(("implementation-throws", "the implementation does not complete a legal operation sequence: harness answered %s" % h[:60]))
+        else:
+            r["corr"].append(("harness-output", "harness answered %s, driver %s" % (h[:60], d[:60])))
         return r
     steps, finals = parse_output(h)
     prev = {}
+    taint = set()       # slots whose object went through an undisciplined base-reference operation (caller error)
     for op, st in zip(ops, steps):
         if st is None:
             r["branches"].append("skip")
             continue
         ret, dump = st
         r["branches"] += branches(op, prev.get(op[1]), prev)
-        r["viol"] += p_wf(dump)
-        r["viol"] += p_op(op, ret, dump, prev)
+        t = op[0]
+        srcs = {"CP": [op[2]], "SL": [op[2]], "MV": [op[2]], "PE": [op[1], op[2]], "PL": [op[2], op[3]] if t == "PL" else []}.get(t, [op[1]])
+        if t in ("D", "C2", "C4"):
+            srcs = []
+        tainted = any(x in taint for x in srcs)
+        if t == "BA":
+            a_, b_ = prev.get(op[1]), prev.get(op[2])
+            tainted = a_ is not None and b_ is not None and not disciplined_ba(a_, b_)
+        if t in ("RS", "R2") and prev.get(op[1]) is not None and prev[op[1]].kind == GA:
+            tainted = dump.k != 1
+        if t == "SL":
+            tainted = False
+        (taint.add if tainted else taint.discard)(dump.slot)
+        if tainted:
+            r["viol"] += [b for b in p_wf(dump) if b[0] not in KIND_CLAUSES]
+            r["branches"].append("object-outside-discipline")
+        else:
+            r["viol"] += p_wf(dump)
+            if not any(x in taint for x in srcs):
+                r["viol"] += p_op(op, ret, dump, prev)
         prev = dict(prev)
         prev[dump.slot] = dump
+        if t == "MV":
+            prev.pop(op[2], None)
+            taint.discard(op[2])
     if set(finals) != set(prev):
         r["corr"].append(("pool", "live slots differ"))
     for s, dump in finals.items():
@@ -507,20 +581,83 @@ def evaluate(ops, line, h, d):
 
 
 _BIN = None
+_PLAIN = None
 
 
-def _work(chunk):
-    """chunk: list of op lists -> aggregated result (picklable, small)"""
+def run_lines(binary, lines, timeout=15, budget=None):
+    """Run the harness on `lines`; never raises on a misbehaving implementation: a crash (sanitizer, assertion, signal)
+    marks the crashing case `crash:<kind>` and resumes after it; when a batch hangs its cases are run one by one
+    (5 s each) until three of them have timed out (`crash:timeout`), the rest of the batch is then `not-run`;
+    short or garbled output marks the case `crash:garbled`."""
+    import os
+    import subprocess
+    if not lines:
+        return []
+    if budget is None:
+        budget = {"timeouts": 0}
+    if budget["timeouts"] >= 3:
+        return ["not-run"] * len(lines)
+    env = dict(os.environ)
+    env.setdefault("ASAN_OPTIONS", "detect_leaks=1:abort_on_error=0:halt_on_error=1")
+    env.setdefault("UBSAN_OPTIONS", "print_stacktrace=1")
+    try:
+        rc, o, e = vlib.sh([str(binary)], inp="\n".join(lines) + "\n", timeout=timeout if len(lines) > 1 else 5, env=env)
+    except subprocess.TimeoutExpired:
+        if len(lines) == 1:
+            budget["timeouts"] += 1
+            return ["crash:timeout"]
+        return sum((run_lines(binary, [l], timeout, budget) for l in lines), [])
+    got = o.split("\n")
+    if got and got[-1] == "":
+        got.pop()
+    if rc == 0 and len(got) == len(lines):
+        return got
+    if rc == 0:
+        return ["crash:garbled"] if len(lines) == 1 else sum((run_lines(binary, [l], timeout, budget) for l in lines), [])
+    if len(got) == len(lines) and "LeakSanitizer" in e:
+        return got[:-1] + ["crash:lsan"]
+    ncomplete = min(len(got), len(lines) - 1)
+    # the last line before a crash may be partial: complete lines end with the END section
+    while ncomplete > 0 and " END" not in got[ncomplete - 1] and not got[ncomplete - 1].startswith(("bad-", "throw:")):
+        ncomplete -= 1
+    return got[:ncomplete] + [vlib.classify_crash(e, rc)] + run_lines(binary, lines[ncomplete + 1:], timeout, budget)
+
+
+def build_plain():
+    """the three container classes + the harness compiled the way a release build would be (-O2 -DNDEBUG, no sanitizer,
+    Eigen assertions off, the repository's EIGEN_INITIALIZE_MATRICES_BY_ZERO): optimisation- and allocator-dependent
+    behaviour that the sanitizer build masks (address reuse after free, uninitialised reads) shows up here"""
+    import os
+    srcd = vlib.REPO / "src/BayesFilters"
+    srcs = [vlib.VERIF / "harness/h_shape.cpp"] + [srcd / "src" / f for f in ("GaussianMixture.cpp", "Gaussian.cpp", "ParticleSet.cpp")]
+    deps = srcs + [vlib.VERIF / "harness/common.hpp"] + [srcd / "include/BayesFilters" / f for f in ("GaussianMixture.h", "Gaussian.h", "ParticleSet.h")]
+    outdir = vlib.BUILD / "plain"
+    outdir.mkdir(parents=True, exist_ok=True)
+    binary = outdir / "h_shape_plain"
+    with vlib.locked("h-plain-h_shape"):
+        stale = not binary.exists() or any(os.stat(str(d)).st_mtime > binary.stat().st_mtime for d in deps)
+        if stale:
+            cmd = ["g++", "-std=c++11", "-O2", "-DNDEBUG", "-DEIGEN_INITIALIZE_MATRICES_BY_ZERO", "-I", str(srcd / "include"), "-I", vlib.EIGEN_INC,
+                   "-I", str(vlib.VERIF / "harness")] + [str(x) for x in srcs] + ["-lpthread", "-o", str(binary)]
+            rc, o, e = vlib.sh(cmd)
+            if rc != 0:
+                raise vlib.BuildError("plain harness failed to compile:\n" + e[-4000:])
+    return binary
+
+
+def _work(job):
+    """job: (also run the plain build?, list of op lists) -> aggregated result (picklable, small)"""
+    plain, chunk = job
     lines = [case_line(o) for o in chunk]
-    hout, logs = vlib.run_harness(_BIN, lines)
+    hout = run_lines(_BIN, lines)
     dout = vlib.run_driver(lines)
     agg = {"n": len(chunk), "viol": [], "corr": [], "content": 0, "content_example": None, "notes": {}, "branches": {},
            "specified": 0, "unspecified": 0, "crashes": 0}
     for ops, line, h, d in zip(chunk, lines, hout, dout):
         try:
             r = evaluate(ops, line, h, d)
-        except Exception as e:      # unparsable output is a correspondence failure, not a crash of the check
-            r = {"viol": [], "corr": [("unparsable-output", repr(e)[:200])], "content": 0, "note": None, "branches": [], "specified": 0, "unspecified": 0}
+        except Exception as e:      # output of unexpected shape: a violation with this input, never a crash of the check
+            r = {"viol": [("malformed-output", "the implementation's output has an unexpected shape (%s)" % repr(e)[:200])], "corr": [], "content": 0, "note": None, "branches": [], "specified": 0, "unspecified": 0}
         for key, what in r["viol"]:
             agg["viol"].append((key, what, line, h[:1500]))
         for key, what in r["corr"]:
@@ -537,6 +674,23 @@ def _work(chunk):
         agg["unspecified"] += r["unspecified"]
         if h.startswith("crash:"):
             agg["crashes"] += 1
+    if plain and _PLAIN is not None:
+        # legal sequences only (where the model predicts an assertion the release build has undefined behaviour)
+        sel = [i for i, d in enumerate(dout) if d.startswith("ok")]
+        pout = run_lines(_PLAIN, [lines[i] for i in sel])
+        agg["plain"] = len(sel)
+        for i, hp in zip(sel, pout):
+            try:
+                r = evaluate(chunk[i], lines[i], hp, dout[i])
+            except Exception as e:
+                r = {"viol": [("malformed-output", repr(e)[:200])], "corr": [], "content": 0}
+            for key, what in r["viol"]:
+                agg["viol"].append(("plain-build:" + key, "[non-sanitizer -O2 -DNDEBUG build] " + what, lines[i], hp[:1500]))
+            for key, what in r["corr"]:
+                agg["corr"].append(("plain-build:" + key, "[non-sanitizer -O2 -DNDEBUG build] " + what, lines[i], hp[:1500]))
+            if r["content"]:
+                agg["content"] += 1
+                agg["content_example"] = agg["content_example"] or lines[i]
     return agg
 
 
@@ -614,8 +768,27 @@ def alphabet(lay, grid, full=True):
     other = Lay(lay.kind, 2, 1, 0, 0)
     out.append(([other.ctor(1), ("CP", 1, 0, 1), ("FI", 1, 9)], lay.copy()))
     out.append(([("SL", 1, 0), ("FI", 1, 9)], lay.copy()))
+    out.append(([("CP", 0, 0, 1)], lay.copy()))                                     # a = a
+    # hand-over: move out and back (construction), move assignment over another layout and back
+    out.append(([("MV", 1, 0, 0), ("FI", 1, 9), ("MV", 0, 1, 0)], lay.copy()))
+    out.append(([other.ctor(1), ("MV", 1, 0, 1), ("MV", 0, 1, 1)], lay.copy()))
+    # assignment through base references from a mixture / particle set of the same sizes (what pred = prev does)
+    for skind in (GM, PS):
+        src = Lay(skind, lay.k, lay.l, lay.c, lay.q, lay.n)
+        ops1 = [src.ctor(1)] + ([("AU", 1, lay.n, lay.n, qmat(lay.n, lay.n, 5))] if lay.n else []) + [("FI", 1, 8), ("BA", 0, 1)]
+        out.append((ops1, lay.copy()))
+    if lay.kind == GM:                                                              # gm = ps of another layout (slicing assignment)
+        src = Lay(PS, lay.k % 4 + 1, (lay.l + 1) % 5, lay.c, lay.q)
+        n = src.copy(); n.kind = GM
+        out.append(([src.ctor(1), ("FI", 1, 8), ("BA", 0, 1)], n))
+    # augmentWithNoise with the object's own first / last covariance block as argument
+    for i0 in sorted(set((0, lay.k - 1))):
+        if lay.n + lay.dcov <= 8:
+            n = lay.copy(); n.n += lay.dcov
+            out.append(([("AA", 0, i0)], n))
     if not full:
         return out + concat_steps(lay, (2,))
+    out.append(([("AU", 0, 2, 2, [[float("inf"), -0.0], [float("nan"), 1e-310]])], Lay(lay.kind, lay.k, lay.l, lay.c, lay.q, lay.n + 2)))
     # element writes through every accessor variant, last component / last row
     i, v = lay.k - 1, 7.625
     modes = (0, 1, 2) if lay.kind == GA else (0, 1)
@@ -644,7 +817,8 @@ def concat_steps(lay, ks):
         out.append((build_like(lay, 1, k2, 5) + [("PL", 0, 0, 1)], n))
     n = lay.copy(); n.k *= 2
     out.append(([("PL", 0, 0, 0)], n))                      # a + a is legal (lhs by value)
-    out.append(([("PE", 0, 0)], None))                      # a += a asserts
+    n = lay.copy(); n.k *= 2
+    out.append(([("PE", 0, 0)], n))                         # a += a concatenates a copy
     bigger = lay.copy(); bigger.l += 1
     out.append((build_like(bigger, 1, 2, 5) + [("PE", 0, 1)], None))   # different size: assertion
     if not lay.q and lay.c >= 1:                            # Euler: other split of the same size is accepted
@@ -664,6 +838,25 @@ def layouts(grid, kinds=(GM, GA, PS)):
                 for c in grid["c"]:
                     for q in (0, 1):
                         yield Lay(kind, k, l, c, q)
+
+
+GRID_BEYOND = {"k": (5, 17), "l": (5, 8), "c": (0, 3)}
+
+
+def enum_misuse():
+    """undisciplined base-reference operations (caller errors): the class-specific clause is expected to fail exactly as
+    base_resize_counterexample / base_assign_counterexample say; model and implementation must still agree"""
+    for l in (0, 2):
+        for c in (0, 1):
+            for q in (0, 1):
+                for k2 in (1, 2, 3):
+                    for nxt in ([], [("AU", 0, 1, 1, qmat(1, 1))], [("GR", 0, l, c)], [("RS", 0, 1, l, c)], [("CP", 1, 0, 0)], [("FI", 0, 3)]):
+                        yield [("C4", 0, GA, 1, l, c, q), ("FI", 0, 1), ("RS", 0, k2, l, c)] + nxt
+                for k1 in (1, 2):
+                    for k2 in (1, 3):
+                        for dk in (PS, GA):
+                            for nxt in ([], [("RS", 0, 2, l, c)] if dk == PS else [("GR", 0, l, c)], [("FI", 0, 3)], [("AU", 0, 1, 1, qmat(1, 1))]):
+                                yield [("C4", 0, dk, k1, l, c, q), ("FI", 0, 1), ("C4", 1, GM, k2, l + 1, c, q), ("FI", 1, 2), ("BA", 0, 1)] + nxt
 
 
 def enum_ctor_overloads():
@@ -777,7 +970,7 @@ def gen_random(g, maxlen):
                 ops += build_like(lay, aux, k2, fresh_stamp())
                 lays[aux] = Lay(PS, k2, lay.l, lay.c, lay.q, lay.n)
                 other = aux
-            if r.random() < 0.5 and other != slot:
+            if r.random() < 0.5:
                 ops.append(("PE", slot, other)); lay.k += lays[other].k
             else:
                 dst = r.randint(0, 2)
@@ -804,11 +997,16 @@ def gen_random(g, maxlen):
 
 # --------------------------------------------------------------------------- the check
 
-def run_cases(sets, binary, workers, stop_after=300):
+def run_cases(sets, binary, workers, stop_after=300, plain=None, plain_every=4):
     """sets: [(name, rule, iterable of cases, exhaustive)] -> (aggregates, sizes, stopped_early, distinct)"""
-    global _BIN
-    _BIN = binary
+    global _BIN, _PLAIN
+    _BIN, _PLAIN = binary, plain
     sizes, seen = {}, set()
+    counter = [0]
+
+    def job(name, buf):
+        counter[0] += 1
+        return (name in ("corpus", "random", "base-reference-misuse", "replay") or counter[0] % plain_every == 0, buf)
 
     def chunks():
         for name, rule, cases, ex in sets:
@@ -819,9 +1017,9 @@ def run_cases(sets, binary, workers, stop_after=300):
                 if not ex:
                     seen.add(hash(case_line(c)))
                 if len(buf) == 400:
-                    sizes[name] += len(buf); yield buf; buf = []
+                    sizes[name] += len(buf); yield job(name, buf); buf = []
             if buf:
-                sizes[name] += len(buf); yield buf
+                sizes[name] += len(buf); yield job(name, buf)
     aggs, bad, stopped = [], 0, False
     if workers <= 1:
         it = (_work(c) for c in chunks())
@@ -832,7 +1030,7 @@ def run_cases(sets, binary, workers, stop_after=300):
     try:
         for a in it:
             aggs.append(a)
-            bad += len(set(v[2] for v in a["viol"]))
+            bad += len(set(v[2] for v in a["viol"])) + 100 * sum(1 for v in a["viol"] if "crash:timeout" in v[1])
             if bad > stop_after:        # enough failing inputs: a broken tree is reported quickly
                 stopped = True
                 break
@@ -851,7 +1049,7 @@ def shrink(ops, binary, key):
     def fails(o):
         if not o:
             return False
-        a = _work([o])
+        a = _work((key.startswith("plain-build:"), [o]))
         return any(v[0] == key for v in a["viol"])
     best = list(ops)
     for n in range(1, len(best)):
@@ -867,17 +1065,34 @@ def shrink(ops, binary, key):
     return best
 
 
-RULE_A = ("alphabet A = {resize to every (components, linear, circular) of the grid [Gaussian: every (linear, circular)], resize with the default argument, "
+RULE_A = ("alphabet A = {self-assignment a = a, move construction out and back, move assignment over another layout and back, assignment through base references "
+          "from a mixture and from a particle set of the same sizes (and, for mixtures, from a particle set of another layout), augmentWithNoise with the object's own "
+          "first / last covariance block, a noise matrix with inf / nan / -0 / denormal entries, "
+          "resize to every (components, linear, circular) of the grid [Gaussian: every (linear, circular)], resize with the default argument, "
           "augmentWithNoise with a square a x a matrix a = 0..3 and with 1x2, 2x1, 0x1 matrices, copy construction / copy assignment over another layout / "
           "base-class copy each followed by a fill of the copy, element writes through every accessor variant at the last component's last row and column, and for "
-          "particle sets: += and + with a set of the same layout and 1..4 (resp. 1..2) components, a + a, a += a (assertion), += with a larger layout (assertion), "
+          "particle sets: += and + with a set of the same layout and 1..4 (resp. 1..2) components, a + a, a += a, += with a larger layout (assertion), "
           "+= with the other Euler split of the same size (accepted), += of an Euler set of the same total size to a quaternion set (assertion)}; "
           "reduced alphabet A' = A without the element writes and with concatenation operands of 2 components only")
 
 
 def run(ctx):
     ctx.proof_stage()
+    import threading
+    pl = {}
+
+    def _bp():
+        try:
+            pl["bin"] = build_plain()
+        except Exception as e:           # reported below
+            pl["err"] = e
+    th = threading.Thread(target=_bp)
+    th.start()
     binary = vlib.build_harness("h_shape")
+    th.join()
+    if "err" in pl:
+        raise vlib.BuildError(str(pl["err"]))
+    plain = pl["bin"]
     quick = ctx.quick()
     sets = []        # (name, rule, iterable of cases, exhaustive?)
     corpus = vlib.VERIF / "corpus" / "C11" / "cases.txt"
@@ -889,6 +1104,13 @@ def run(ctx):
                  "EXHAUSTIVE: for every class and every layout of the property's grid (components 1..4 [Gaussian: 1], linear 0..4, circular 0..2, Euler/quaternion) and "
                  "every initial noise size 0..3 (obtained by one augmentWithNoise): construct, fill with recognisable values, then every single step of A", 
                  enum_depth(GRID_FULL, 1, noise=(0, 1, 2, 3)), True))
+    sets.append(("base-reference-misuse",
+                 "EXHAUSTIVE over its small grid (linear {0,2}, circular 0..1, Euler/quaternion): a Gaussian resized through GaussianMixture& to 1..3 components, and "
+                 "assignment through base references of a 1- or 3-component mixture of another size onto a 1..2-component particle set / a Gaussian, each followed by "
+                 "nothing / augmentation / resize back / copy / fill; the class-specific clause is waived for these caller errors, everything else is checked", enum_misuse(), True))
+    sets.append(("beyond-grid",
+                 "EXHAUSTIVE: every single step of A from layouts beyond the property's grid chosen for coincidences (components {5,17}, linear {5,8}, circular {0,3}, "
+                 "Euler/quaternion, all classes; resize targets from the same set)", enum_depth(GRID_BEYOND, 1, noise=(0,)), True))
     if quick:
         sets.append(("depth2-tiny-grid",
                      "EXHAUSTIVE: two consecutive steps of A' (a fill between them); layouts and resize targets restricted to components 1..2, linear {0, 2}, "
@@ -911,7 +1133,7 @@ def run(ctx):
         import json
         sets = [("replay", "the input recorded in %s" % ctx.replay, [parse_line(json.load(open(ctx.replay))["replay"]["input_line"])], False)]
     workers = max(1, min(8 if quick else 12, vlib.NPROC - 2))
-    aggs, sizes, stopped, distinct_sampled = run_cases(sets, binary, workers)
+    aggs, sizes, stopped, distinct_sampled = run_cases(sets, binary, workers, plain=plain, plain_every=4 if quick else 8)
     total = sum(a["n"] for a in aggs)
     viol, corr, notes, br = [], [], {}, {}
     content = specified = unspecified = crashes = 0
@@ -932,7 +1154,7 @@ def run(ctx):
     for key, (what, line, h) in sorted(by_key.items())[:12]:
         ops = shrink(parse_line(line), binary, key)
         small = case_line(ops)
-        hs, _ = vlib.run_harness(binary, [small])
+        hs = run_lines(plain if key.startswith("plain-build:") else binary, [small])
         ctx.violation(key, "C11 %s: %s" % (key, what), {"harness": "h_shape", "input_line": small, "original_input_line": line[:3000],
                                                       "observed": hs[0][:3000], "failing_cases": sum(1 for v in viol if v[0] == key)})
     if corr and not viol:
@@ -960,6 +1182,7 @@ def run(ctx):
         "content_disagreements_outside_property": content,
         "sequences_ending_in_predicted_assertion": notes.get("assert-agreed", 0),
         "notes_histogram": notes, "impl_aborts": crashes, "workers": workers, "stopped_early": stopped,
+        "cases_also_run_on_plain_release_build": sum(a.get("plain", 0) for a in aggs),
     })
     ctx.assumptions += [
         "components >= 1 (the property's layouts); resize to 0 components is outside the model",
